@@ -9,7 +9,7 @@ import re
 import subprocess
 import tempfile
 
-from .. import build, calgen, rfc5545, rulegen, evgen
+from .. import build, calgen, rfc5545, rulegen, evgen, xxh
 from ..common import (Run, Part, CaseServer, HarnessCrash, pmap, rng_for, build_or_die, NCPU, SAN_ENV, unesc)
 
 PROP = "C05"
@@ -103,7 +103,11 @@ def field_case(srv, part, rng):
         got = dict(t["fields"])
         present = "+".join(sorted(k for k in ev if k not in ("uid", "dtstart", "rules")))
         part.nontrivial.add("fields/" + "+".join(sorted(set(exp) - {"mailout", "mailerr", "mailrun", "max_simul", "umsk"}))[:80])
-        if t["uid"] != ev["uid"]:
+        if t["uid"] != ev["uid"] and xxh.xxh32(t["uid"]) == xxh.xxh32(ev["uid"]):
+            # the library identifies a UID by its 32-bit hash (one key by design, see C11): among the thousands of UIDs
+            # one harness process sees, two may share it, and the name of the first is printed for both
+            part.count("uid_hash_twins_in_one_process")
+        elif t["uid"] != ev["uid"]:
             part.violation("fields/uid", {"input": data.decode("latin1"), "summary": "UID %r read as %r" % (ev["uid"], t["uid"])})
         for k, e, g in cmp_fields(exp, got, "fields"):
             glob = "global-default" if (k in model["global"] and k not in ev) else "event"
@@ -239,7 +243,9 @@ def ser_case(srv, part, rng, tier):
         return
     part.nontrivial.add("ser/%s/%s" % (fkey, kcls))
     # attributes
-    if rep[0]["uid"] != orig[0]["uid"]:
+    if rep[0]["uid"] != orig[0]["uid"] and xxh.xxh32(rep[0]["uid"]) == xxh.xxh32(orig[0]["uid"]):
+        part.count("uid_hash_twins_in_one_process")
+    elif rep[0]["uid"] != orig[0]["uid"]:
         part.violation("ser/attr/uid", dict(wit, summary="UID %r read back as %r" % (orig[0]["uid"], rep[0]["uid"])))
     for fld, e, g in cmp_fields(orig[0]["fields"], rep[0]["fields"], "ser"):
         part.violation("ser/attr/%s" % fld, dict(wit, field=fld, expected=e, observed=g,
